@@ -243,3 +243,50 @@ pub fn imports_of(state: &ServerState) -> BTreeMap<String, Vec<String>> {
   }
   out
 }
+
+/// Many modules with many distinct long identifiers: more than 10 000 heap strings and more than
+/// 100 modules, so that the language server's incremental mark (100 modules per slice) and sweep
+/// (10 000 slots per slice) really run in slices and the sweep cursor wraps.
+pub fn bulk_initial(rng: &mut Rng, nmods: usize, fns_per_mod: usize) -> Vec<(String, String)> {
+  let mut out = Vec::new();
+  for m in 0..nmods {
+    let name = format!("bulk.Module{m}");
+    let class = format!("BulkClassNumber{m}WithLongName");
+    let mut t = String::new();
+    if m > 0 && rng.chance(2, 3) {
+      let d = rng.below(m);
+      t.push_str(&format!("import {{ BulkClassNumber{d}WithLongName }} from bulk.Module{d}\n"));
+    }
+    t.push_str(&format!("class {class} {{\n"));
+    for f in 0..fns_per_mod {
+      t.push_str(&format!(
+        "  function functionNumber{m}x{f}WithLongName(parameterNumber{m}x{f}WithLongName: int, unusedParameter{m}x{f}WithLongName: Str): int = {{ let localVariable{m}x{f}WithLongName = parameterNumber{m}x{f}WithLongName + {f}; localVariable{m}x{f}WithLongName }}\n"
+      ));
+    }
+    t.push_str("}\n");
+    out.push((name, t));
+  }
+  out
+}
+
+pub fn bulk_history(rng: &mut Rng, nmods: usize, fns_per_mod: usize, len: usize) -> (Vec<(String, String)>, Vec<Op>) {
+  let initial = bulk_initial(rng, nmods, fns_per_mod);
+  let mut ops = Vec::new();
+  for i in 0..len {
+    let m = rng.below(nmods);
+    match rng.below(6) {
+      0 => ops.push(Op::Remove(vec![format!("bulk.Module{m}")])),
+      1 => ops.push(Op::Rename(vec![(format!("bulk.Module{m}"), format!("bulk.Moved{i}"))])),
+      _ => {
+        // re-create the module with fresh names so that old strings become garbage
+        let mut t = format!("class BulkClassNumber{m}WithLongName {{\n");
+        for f in 0..fns_per_mod {
+          t.push_str(&format!("  function regeneratedFunction{i}x{m}x{f}LongName(regeneratedParameter{i}x{m}x{f}Long: int): int = regeneratedParameter{i}x{m}x{f}Long\n"));
+        }
+        t.push_str("}\n");
+        ops.push(Op::Update(vec![(format!("bulk.Module{m}"), t)]));
+      }
+    }
+  }
+  (initial, ops)
+}
